@@ -2,12 +2,14 @@ use crate::run::*;
 use serde_json::Value as J;
 
 pub mod c06;
+pub mod c09;
 pub mod c10;
 pub mod c11;
 pub mod c12;
 pub mod c15;
 pub mod c16;
 pub mod c18;
+pub mod dp;
 pub mod sqlprops;
 
 pub type RunFn = fn(&Ctx, &Findings) -> Report;
@@ -18,6 +20,7 @@ pub fn lookup(id: &str) -> Option<(RunFn, ReplayFn)> {
         "C06" => Some((c06::run, c06::replay)),
         "C07" => Some((sqlprops::run_c07, sqlprops::replay_c07)),
         "C08" => Some((sqlprops::run_c08, sqlprops::replay_c08)),
+        "C09" => Some((c09::run, c09::replay)),
         "C10" => Some((c10::run, c10::replay)),
         "C11" => Some((c11::run, c11::replay)),
         "C12" => Some((c12::run, c12::replay)),
